@@ -593,7 +593,10 @@ func (p *parser) BasicParser(urlOrRef string, baseUrl *Url, url *Url, stateOverr
 						url.path.addSegment("")
 					}
 				} else if isSingleDotPathSegment(buffer.String()) && r != '/' && !url.isSpecialSchemeAndBackslash(r) {
-					url.path.addSegment("")
+					// When collapsing slashes, a path that already ends in an empty segment does not get another one.
+					if !p.opts.collapseConsecutiveSlashes || !url.IsSpecialScheme() || url.path.isEmpty() || len(url.path.p[len(url.path.p)-1]) > 0 {
+						url.path.addSegment("")
+					}
 				} else if !isSingleDotPathSegment(buffer.String()) {
 					if url.scheme == "file" && url.path.isEmpty() && isWindowsDriveLetter(buffer.String()) {
 						// replace second code point in buffer with U+003A (:).
